@@ -1209,6 +1209,135 @@ fn partial_type(input: Span) -> IResult<Span, Type> {
     )(input)
 }
 
+/// A named partial type: `Name(field: type, ...)` (the first arm of [`partial_type`]).
+fn named_partial_type(input: Span) -> IResult<Span, Type> {
+    map(
+        tuple((
+            tuple_name,
+            delimited(pair(char('('), wsc), field_type_list, pair(wsc, char(')'))),
+        )),
+        |(name, fields)| {
+            Type::Tuple(TupleType {
+                name: Some(name),
+                fields,
+                is_partial: true,
+            })
+        },
+    )(input)
+}
+
+/// The parenthesised process forms `(@-> type)` and `(@type -> type)` (the first arm of
+/// [`process_type`]).
+fn paren_process_type(input: Span) -> IResult<Span, Type> {
+    map(
+        delimited(
+            char('('),
+            alt((
+                map(
+                    preceded(tuple((char('@'), ws0, tag("->"), ws1)), base_type),
+                    |return_type| (None, Some(return_type)),
+                ),
+                map(
+                    preceded(
+                        char('@'),
+                        separated_pair(base_type, tuple((ws1, tag("->"), ws1)), base_type),
+                    ),
+                    |(receive_type, return_type)| (Some(receive_type), Some(return_type)),
+                ),
+            )),
+            char(')'),
+        ),
+        |(receive_type, return_type): (Option<Type>, Option<Type>)| {
+            Type::Process(ProcessType {
+                receive_type: receive_type.map(Box::new),
+                return_type: return_type.map(Box::new),
+            })
+        },
+    )(input)
+}
+
+/// `@` with an optional receive type, no arrow (the second arm of [`process_type`]).
+fn at_process_type(input: Span) -> IResult<Span, Type> {
+    map(preceded(char('@'), opt(base_type)), |receive_type| {
+        Type::Process(ProcessType {
+            receive_type: receive_type.map(Box::new),
+            return_type: None,
+        })
+    })(input)
+}
+
+/// Everything a type can be that starts with `(`: an unnamed partial type `(x: type, ...)` / `()`,
+/// a parenthesised process type `(@type -> type)`, or grouping parentheses `(type)`, tried in
+/// that order, exactly as the separate alternatives of `base_type` did. The unnamed partial type
+/// and the grouping read the same text, so the content is parsed ONCE: trying them one after the
+/// other parsed every nesting level twice, i.e. took time exponential in the nesting depth
+/// (`(((('int))))`, `(#(#'a -> 'b) -> 'c)`, `(('a | 'b) | 'c)`).
+///
+/// The field list `( field, ... )` is read as for a partial type. It is one if it is empty or has
+/// a named field. Otherwise the grouping applies exactly when the list is a single positional
+/// field, nothing but whitespace separates it from the parentheses (the grouping form allows no
+/// comments: a comment after `(` is only skipped in front of a leading `|` of a union, by
+/// `type_definition` itself) and no trailing comma follows it.
+fn paren_type(input: Span) -> IResult<Span, Type> {
+    let (after_open, _) = char('(')(input)?;
+    let (content, _) = wsc(after_open)?;
+    // `field_type_list`, remembering where the first field ended.
+    let mut first_end = None;
+    let mut fields = Vec::new();
+    let mut position = content;
+    match field_type(content) {
+        Ok((rest, field)) => {
+            first_end = Some(rest);
+            fields.push(field);
+            position = rest;
+            let (rest, more) =
+                many0(preceded(tuple((wsc, char(','), wsc)), field_type))(position)?;
+            fields.extend(more);
+            position = rest;
+        }
+        Err(nom::Err::Error(_)) => {}
+        Err(error) => return Err(error),
+    }
+    let closed: IResult<Span, _> = preceded(
+        opt(pair(wsc, char(','))),
+        pair(wsc, char(')')),
+    )(position);
+    if let Ok((rest, _)) = closed
+        && (fields.is_empty()
+            || fields
+                .iter()
+                .any(|f| matches!(f, FieldType::Field { name: Some(_), .. })))
+    {
+        return Ok((
+            rest,
+            Type::Tuple(TupleType {
+                name: None,
+                fields,
+                is_partial: true,
+            }),
+        ));
+    }
+    if let Ok(result) = paren_process_type(input) {
+        return Ok(result);
+    }
+    // Grouping parentheses `( type )` around the single positional field.
+    if let (Some(first_end), [FieldType::Field { name: None, .. }]) = (first_end, &fields[..]) {
+        let (type_start, _) = ws0(after_open)?;
+        let same_start = type_start.location_offset() == content.location_offset()
+            || content.fragment().starts_with('|');
+        if same_start
+            && let Ok((rest, _)) = pair(ws0, char(')'))(first_end)
+            && let Some(FieldType::Field { type_def, .. }) = fields.pop()
+        {
+            return Ok((rest, type_def));
+        }
+    }
+    Err(nom::Err::Error(nom::error::Error::new(
+        input,
+        nom::error::ErrorKind::Verify,
+    )))
+}
+
 fn tuple_type(input: Span) -> IResult<Span, Type> {
     map(
         alt((
@@ -1361,43 +1490,6 @@ fn type_cycle(input: Span) -> IResult<Span, Type> {
     )(input)
 }
 
-fn process_type(input: Span) -> IResult<Span, Type> {
-    map(
-        alt((
-            // (@...) - parenthesized arrow forms (@ is inside parens)
-            delimited(
-                char('('),
-                alt((
-                    // (@-> type) - return only
-                    map(
-                        preceded(tuple((char('@'), ws0, tag("->"), ws1)), base_type),
-                        |return_type| (None, Some(return_type)),
-                    ),
-                    // (@type -> type) - both receive and return
-                    map(
-                        preceded(
-                            char('@'),
-                            separated_pair(base_type, tuple((ws1, tag("->"), ws1)), base_type),
-                        ),
-                        |(receive_type, return_type)| (Some(receive_type), Some(return_type)),
-                    ),
-                )),
-                char(')'),
-            ),
-            // @ with optional type - no arrow (@ is outside)
-            map(preceded(char('@'), opt(base_type)), |receive_type| {
-                (receive_type, None)
-            }),
-        )),
-        |(receive_type, return_type)| {
-            Type::Process(ProcessType {
-                receive_type: receive_type.map(Box::new),
-                return_type: return_type.map(Box::new),
-            })
-        },
-    )(input)
-}
-
 fn function_type(input: Span) -> IResult<Span, Type> {
     map(
         preceded(
@@ -1419,12 +1511,12 @@ fn function_type(input: Span) -> IResult<Span, Type> {
 
 fn function_input_type(input: Span) -> IResult<Span, Type> {
     alt((
-        partial_type, // Must come before grouping parentheses
-        delimited(pair(char('('), ws0), type_definition, pair(ws0, char(')'))),
+        named_partial_type,
+        paren_type, // unnamed partial type, `(@… -> …)`, or grouping parentheses: one parse
         tuple_type,
         resource_type,
         type_cycle,
-        process_type,
+        at_process_type,
         module_type, // Must come before type_identifier to match '% before trying identifier
         type_identifier,
         self_default_type, // Bare `'`; after type_identifier/module_type so `'int`/`'%mod` win
@@ -1433,12 +1525,12 @@ fn function_input_type(input: Span) -> IResult<Span, Type> {
 
 fn function_output_type(input: Span) -> IResult<Span, Type> {
     alt((
-        partial_type, // Must come before grouping parentheses
-        delimited(pair(char('('), ws0), type_definition, pair(ws0, char(')'))),
+        named_partial_type,
+        paren_type, // unnamed partial type, `(@… -> …)`, or grouping parentheses: one parse
         tuple_type,
         resource_type,
         type_cycle,
-        process_type,
+        at_process_type,
         module_type, // Must come before type_identifier to match '% before trying identifier
         type_identifier,
         self_default_type, // Bare `'`; after type_identifier/module_type so `'int`/`'%mod` win
@@ -1448,13 +1540,13 @@ fn function_output_type(input: Span) -> IResult<Span, Type> {
 fn base_type(input: Span) -> IResult<Span, Type> {
     alt((
         tuple_type,
-        partial_type,  // Must come before grouping parentheses to have priority
+        named_partial_type,
+        paren_type, // unnamed partial type, `(@… -> …)`, or grouping parentheses: one parse
         resource_type, // Must come before type_identifier to match \Resource
         type_cycle,
-        process_type,
+        at_process_type,
         type_parameter, // Must come before type_identifier to match <'t> before trying identifier
         module_type,    // Must come before type_identifier to match '% before trying identifier
-        delimited(pair(char('('), ws0), type_definition, pair(ws0, char(')'))),
         type_identifier,
         self_default_type, // Bare `'`; after type_identifier/module_type so `'int`/`'%mod` win
     ))(input)
